@@ -27,6 +27,7 @@ func shapeClass(c tlx.Case) string {
 
 func main() {
 	run := vr.New("C01", "exploration")
+	defer run.Recover()
 	freepass.MaybeReplay(run)
 	run.Rule("for every registered constructor: two base values (all fields non-zero / only mandatory fields) and every assignment with <=k field deviations over the shape alphabet (boundary ints/longs/doubles, string and bytes lengths {0..5,252..257,65535,65536}, vector sizes {nil,0,1,2,3}, 128/256-bit integers with leading zero bytes, every enum member, every implementer of every interface-typed field) plus the full zero/non-zero product of every shared flag-bit group; a case is non-trivial when it has at least one deviation and the encoder accepted it")
 	run.Assume("equality normalises only: nil and empty slice are the same vector, big integers compare by value, doubles bitwise")
@@ -160,6 +161,8 @@ var firstBytes = map[string][20]byte{}
 
 func checkCase(run *vr.Run, e *tlx.Entry, c tlx.Case) {
 	rep := map[string]any{"ID": c.ID}
+	run.Begin(e.Name(), c.ID, rep)
+	defer run.End()
 	site := func(kind string) string {
 		if c.Devs == 0 {
 			return e.Name() + "|base|" + kind
@@ -317,7 +320,7 @@ func checkSpecial(run *vr.Run, e *tlx.Entry) {
 				got, ok := obj.(*objects.MessageContainer)
 				same := ok && len(*got) == len(c)
 				for i := 0; same && i < len(c); i++ {
-					same = (*got)[i].MsgID == c[i].MsgID && (*got)[i].SeqNo == c[i].SeqNo && bytes.Equal((*got)[i].Msg, c[i].Msg)
+					same = (*got)[i] != nil && (*got)[i].MsgID == c[i].MsgID && (*got)[i].SeqNo == c[i].SeqNo && bytes.Equal((*got)[i].Msg, c[i].Msg)
 				}
 				if !same {
 					run.Violation("objects.MessageContainer|decode-"+name+"-differs", id+": decoded container differs from the original", rep)
